@@ -14,6 +14,21 @@ def wrap(preamble):
     return f
 
 
+def cfg_variant(cfgname, subs, tag):
+    """a copy of spec/<cfgname> with textual substitutions of constants (e.g. another node id), written under out/tlc/"""
+    import os
+    txt = open(os.path.join(vlib.SPEC, cfgname)).read()
+    for a, b in subs:
+        if a not in txt:
+            raise vlib.Infra("cfg_variant: %r not in %s" % (a, cfgname))
+        txt = txt.replace(a, b)
+    d = os.path.join(vlib.OUT, "tlc")
+    os.makedirs(d, exist_ok=True)
+    pth = os.path.join(d, "%s_%s.cfg" % (cfgname[:-4], tag))
+    open(pth, "w").write(txt)
+    return pth
+
+
 def thin(behs, n, seed):
     """deterministic subsample (quick tier); keeps order"""
     if len(behs) <= n:
